@@ -80,6 +80,57 @@ def run(ctx):
         found += 1
     ctx.bound("anchor ties: %d random tagged graphs with an inversion link; per graph up to 2 walks whose scaffold steps are half '>' half '<', "
               "start reversed and end on a scaffold node of another BO, + 2 other walks, random offsets x all permutations" % found)
+    # a bubble with more than ten inner nodes (NO = 1..12: two-digit NO values must order as numbers) - added after seeded change C08-5
+    from rtc.gen import Seg, Graph
+    segs = [Seg("w0", "AC", "chr1", 0, 0), Seg("w99", "GT", "chr1", 3, 0)]
+    segs[0].bo, segs[0].no, segs[1].bo, segs[1].no = 0, 0, 2, 0
+    links = []
+    for k in range(1, 13):
+        sg = Seg("w%d" % k, "ACGT"[k % 4] * (1 + k % 3), "chr1" if k == 1 else "hap%d" % k, 2 if k == 1 else 10 * k, 0 if k == 1 else 1)
+        sg.bo, sg.no = 1, k
+        segs.insert(-1, sg)
+        links += [("w0", "+", sg.id, "+", 0), (sg.id, "+", "w99", "+", 0)]
+    for sg in segs:
+        sg.extra = ("BO:i:%d" % sg.bo, "NO:i:%d" % sg.no)
+    gw = Graph(segs, links)
+    n_wide = 3 if ctx.quick else 30
+    for wi in range(n_wide):
+        ks = [rng.choice([10, 11, 12]), rng.choice([2, 3, 9]), rng.randint(1, 12), rng.randint(1, 12)]
+        rs = []
+        for i, k in enumerate(ks):
+            w = [("w%d" % k, rng.choice("><"))]
+            pl = gw.by_id[w[0][0]].ln
+            ps = rng.randint(0, pl - 1)
+            rs.append((w, ps, rng.randint(ps + 1, pl), sortlib.gaf_record(gw, w, ps, pl, name="w%d_%d" % (wi, i))))
+        rs = [(w, a, b, sortlib.gaf_record(gw, w, a, b, name=f[0])) for (w, a, b, f) in rs]
+        _check_perms(ctx, gw, rs, 2000 + wi)
+    ctx.bound("wide bubble: one bubble with 12 inner nodes (NO 1..12), %d x 4 single-node records (at least one with NO >= 10 and one with "
+              "NO <= 9) x all 24 permutations" % n_wide)
+    # several records on the SAME path, consecutive in the input, with full-length / centred / off-centre intervals (any per-record state
+    # carried over from the previous line shows here) - added after seeded change C08-6
+    n_same = 6 if ctx.quick else 60
+    done = 0
+    for _try in range(20 * n_same):
+        if done >= n_same:
+            break
+        g = make_rgfa(rng, n_ref=rng.randint(3, 5), max_len=4, n_bubbles=rng.randint(0, 2), inversion=True, n_chrom=1, link_tags=False)
+        sortlib.tag_graph(rng, g, 0.1)
+        walks = [w for w in g.walks(2) if sum(g.by_id[n].ln for n, _ in w) >= 3]
+        rev = [w for w in walks if w[0][1] == "<"]
+        if not rev:
+            continue
+        w = rng.choice(rev if rng.random() < 0.7 else walks)
+        pl = sum(g.by_id[n].ln for n, _ in w)
+        ivs = [(0, pl), ((pl - 1) // 2, pl - (pl - 1) // 2), (0, rng.randint(1, pl - 1)), (rng.randint(1, pl - 1), pl)]
+        rng.shuffle(ivs)
+        rs = [(w, a, b, sortlib.gaf_record(g, w, a, b, name="p%d_%d" % (done, i))) for i, (a, b) in enumerate(ivs) if a < b]
+        other = rng.choice(walks)
+        opl = sum(g.by_id[n].ln for n, _ in other)
+        rs.append((other, 0, opl, sortlib.gaf_record(g, other, 0, opl, name="p%d_o" % done)))
+        _check_perms(ctx, g, rs, 3000 + done)
+        done += 1
+    ctx.bound("same path: %d random tagged graphs x (4 records on one walk - full length, centred, prefix, suffix - mostly starting on a reversed "
+              "node, + 1 record on another walk) x all 120 permutations" % done)
     return ("compare_gaf on all pairs (and triples) of a 54-record domain vs. the key order; `gaftools sort` on every permutation of "
             "2-5 records over random tagged graphs vs. an independent oracle; a case is non-trivial when the two records differ / "
             "the permutation is distinct")
